@@ -290,17 +290,25 @@ def harmonicMean(phi: CellVariable):
     elif issubclass(type(phi.domain), Grid2D):
         dx, dy = cell_size_array(phi.domain)
         return FaceVariable(phi.domain,
-            phi._value[1:,1:-1]*phi._value[0:-1,1:-1]*(dx[1:]+dx[0:-1])/(dx[1:]*phi._value[0:-1,1:-1]+dx[0:-1]*phi._value[1:,1:-1]),
-            phi._value[1:-1,1:]*phi._value[1:-1,0:-1]*(dy[:,1:]+dy[:,0:-1])/(dy[:,1:]*phi._value[1:-1,0:-1]+dy[:,0:-1]*phi._value[1:-1,1:]),
+            _harmonic(phi._value[0:-1,1:-1], phi._value[1:,1:-1], dx[0:-1], dx[1:]),
+            _harmonic(phi._value[1:-1,0:-1], phi._value[1:-1,1:], dy[:,0:-1], dy[:,1:]),
             np.array([]))
     elif issubclass(type(phi.domain), Grid3D):
         dx, dy, dz = cell_size_array(phi.domain)
         return FaceVariable(phi.domain,
-            phi._value[1:,1:-1,1:-1]*phi._value[0:-1,1:-1,1:-1]*(dx[1:]+dx[0:-1])/(dx[1:]*phi._value[0:-1,1:-1,1:-1]+dx[0:-1]*phi._value[1:,1:-1,1:-1]),
-            phi._value[1:-1,1:,1:-1]*phi._value[1:-1,0:-1,1:-1]*(dy[:,0:-1]+dy[:,1:])/(dy[:,1:]*phi._value[1:-1,0:-1,1:-1]+dy[:,0:-1]*phi._value[1:-1,1:,1:-1]),
-            phi._value[1:-1,1:-1,1:]*phi._value[1:-1,1:-1,0:-1]*(dz[:,:,0:-1]+dz[:,:,1:])/(dz[:,:,1:]*phi._value[1:-1,1:-1,0:-1]+dz[:,:,0:-1]*phi._value[1:-1,1:-1,1:]))
-    
-    
+            _harmonic(phi._value[0:-1,1:-1,1:-1], phi._value[1:,1:-1,1:-1], dx[0:-1], dx[1:]),
+            _harmonic(phi._value[1:-1,0:-1,1:-1], phi._value[1:-1,1:,1:-1], dy[:,0:-1], dy[:,1:]),
+            _harmonic(phi._value[1:-1,1:-1,0:-1], phi._value[1:-1,1:-1,1:], dz[:,:,0:-1], dz[:,:,1:]))
+
+
+def _harmonic(phi_m, phi_p, d_m, d_p):
+    # width-weighted harmonic mean of two adjacent cells; 0 if either cell
+    # value is 0 (also if both are, as in the 1D loop above)
+    zero = (phi_m == 0.0) | (phi_p == 0.0)
+    denom = np.where(zero, 1.0, d_p*phi_m + d_m*phi_p)
+    return np.where(zero, 0.0, phi_p*phi_m*(d_p+d_m)/denom)
+
+
 def upwindMean(phi: CellVariable, u: FaceVariable):
     """
     Interpolate a mesh-variable defined on mesh-nodes to mesh-faces by matching the node value carried by the flow.   
